@@ -231,6 +231,187 @@ theorem calc_mic_eq (cr : Crypto) (data : Bytes) :
     (Gen.CodecFn.calculate_mic (ints data) (genCrypto cr))._0 = ints (calculateMic cr data) := by
   simp [Gen.CodecFn.calculate_mic, calculateMic, genCrypto, show bytes ([] : List Int) = [] from rfl]
 
+/-! ## `encrypt_frm_data_payload`: the keystream loop -/
+
+/-- the loop-carried variables of the generated loop, as the model's loop state -/
+def encSt (st : KsState) : List Int × List Int × List Int × Int :=
+  (ints st.buf, ints st.a.toList, ints st.s.toList, toI st.ctr)
+
+theorem forRange_go_eq (cr : Crypto) (start : Nat)
+    (f : Int → (List Int × List Int × List Int × Int) → Option (List Int × List Int × List Int × Int)) :
+    ∀ (n lo : Nat) (st : KsState),
+      (∀ i, lo ≤ i → i < lo + n → ∀ st, f (i : Int) (encSt st) = optOf ((ksStep cr start st i).map encSt)) →
+      Rt.forRangeM.go f n (lo : Int) (encSt st) = optOf ((ksLoop cr start (List.range' lo n) st).map encSt) := by
+  intro n
+  induction n with
+  | zero => intro lo st _; simp [Rt.forRangeM.go, ksLoop, optOf, Outcome.map]
+  | succ n ih =>
+    intro lo st h
+    have h0 := h lo (Nat.le_refl _) (by omega) st
+    rw [List.range'_succ]
+    simp only [Rt.forRangeM.go, ksLoop, h0]
+    cases hs : ksStep cr start st lo with
+    | ok st' =>
+      simp only [Outcome.map, optOf, Outcome.bind]
+      have := ih (lo + 1) st' (fun i h1 h2 => h i (by omega) (by omega))
+      rw [show ((lo + 1 : Nat) : Int) = (lo : Int) + 1 by push_cast; rfl] at this
+      rw [this]; rfl
+    | err e => simp [Outcome.map, optOf, Outcome.bind]
+    | panic => simp [Outcome.map, optOf, Outcome.bind]
+
+theorem forRangeM_eq (cr : Crypto) (start : Nat)
+    (f : Int → (List Int × List Int × List Int × Int) → Option (List Int × List Int × List Int × Int))
+    (len : Nat) (st : KsState) (s0 : List Int × List Int × List Int × Int) (hs : s0 = encSt st)
+    (hstep : ∀ i, i < len → ∀ st, f (i : Int) (encSt st) = optOf ((ksStep cr start st i).map encSt)) :
+    Rt.forRangeM 0 (len : Int) f s0 = optOf ((ksLoop cr start (List.range len) st).map encSt) := by
+  subst hs
+  have := forRange_go_eq cr start f len 0 st (fun i _ h2 => hstep i (by omega))
+  rw [List.range_eq_range']
+  simpa [Rt.forRangeM] using this
+
+theorem block_ofList_toList (b : Block) : Block.ofList? b.toList = some b := by
+  simp [Block.ofList?, Vector.toList]
+
+theorem ck_u8_succ (c : UInt8) : Rt.ck .u8 (toI c + 1) = if c = 255 then none else some (toI (c + 1)) := by
+  have h := c.toNat_lt
+  by_cases hc : c = 255
+  · subst hc; simp [Rt.ck, Rt.ITy.lo, Rt.ITy.hi, Rt.ITy.signed, Rt.ITy.bits, toI]
+  · have : c.toNat ≠ 255 := fun e => hc (UInt8.toNat_inj.mp (by simpa using e))
+    simp only [hc, if_false, Rt.ck, Rt.ITy.lo, Rt.ITy.hi, Rt.ITy.signed, Rt.ITy.bits, toI, UInt8.toNat_add]
+    simp
+    omega
+
+theorem xor_toI (a b : UInt8) : Rt.xorI (toI a) (toI b) = toI (a ^^^ b) := by
+  simp only [toI, xorI_nat, UInt8.toNat_xor]
+
+
+theorem ck_usize_sub (stop start : Nat) (h : stop < 2 ^ 64) :
+    Rt.ck .usize ((stop : Int) - (start : Int)) = if start ≤ stop then some (((stop - start : Nat)) : Int) else none := by
+  by_cases hs : start ≤ stop
+  · have : ((stop - start : Nat) : Int) = (stop : Int) - (start : Int) := by omega
+    simp only [hs, if_true, this, Rt.ck, Rt.ITy.lo, Rt.ITy.hi, Rt.ITy.signed, Rt.ITy.bits]
+    simp; omega
+  · simp only [hs, if_false, Rt.ck, Rt.ITy.lo, Rt.ITy.hi, Rt.ITy.signed, Rt.ITy.bits]
+    simp; omega
+
+theorem ck_usize_add (a b : Nat) (h : a + b < 2 ^ 64) : Rt.ck .usize ((a : Int) + (b : Int)) = some ((a + b : Nat) : Int) := by
+  simp only [Rt.ck, Rt.ITy.lo, Rt.ITy.hi, Rt.ITy.signed, Rt.ITy.bits]
+  simp; omega
+
+theorem slice_full_ints (l : Bytes) : Rt.slice (ints l) 0 (Int.ofNat (ints l).length) = some (ints l) := by
+  have := slice_ints l 0 l.length
+  simpa using this
+
+theorem copy_full_ints (l src : Bytes) :
+    Rt.copyFromSlice (ints l) 0 (Int.ofNat (ints l).length) (ints src)
+      = if src.length = l.length then some (ints src) else none := by
+  have := copyFromSlice_ints l src 0 l.length
+  simpa using this
+
+theorem and15 (i : Nat) : Rt.andI (i : Int) 15 = ((i &&& 15 : Nat) : Int) := andI_nat i 15
+
+theorem setIdx_block15 (a : Block) (v : UInt8) :
+    Rt.setIdx (ints a.toList) 15 (toI v) = some (ints (a.set 15 v).toList) := by
+  rw [setIdx_ints' _ _ _ (by omega)]
+  simp [Vector.toList_set]
+
+theorem idx_block (b : Block) (j : Nat) : Rt.idx (ints b.toList) (j : Int) = (b[j]?).map toI := by
+  rw [idx_ints]
+  congr 1
+  simp [Vector.toList]
+
+theorem idx_block0 (b : Block) : Rt.idx (ints b.toList) 0 = some (toI b[0]) := by
+  have := idx_block b 0
+  simpa using this
+
+theorem idx_add (l : Bytes) (a b : Nat) : Rt.idx (ints l) ((a : Int) + (b : Int)) = (l[a + b]?).map toI := by
+  exact_mod_cast idx_ints l (a + b)
+
+theorem setIdx_add (l : Bytes) (a b : Nat) (v : UInt8) :
+    Rt.setIdx (ints l) ((a : Int) + (b : Int)) (toI v) = if a + b < l.length then some (ints (l.set (a + b) v)) else none := by
+  exact_mod_cast setIdx_ints l (a + b) v
+
+theorem ksStep_ne_err (cr : Crypto) (start : Nat) (st : KsState) (i : Nat) (e : Err) : ksStep cr start st i ≠ .err e := by
+  unfold ksStep
+  by_cases hj : i &&& 15 = 0 <;> by_cases hc : st.ctr = 255 <;> simp [hj, hc, Outcome.bind] <;>
+    (split <;> simp)
+
+theorem ksLoop_ne_err (cr : Crypto) (start : Nat) (e : Err) : ∀ (l : List Nat) (st : KsState), ksLoop cr start l st ≠ .err e := by
+  intro l
+  induction l with
+  | nil => intro st; simp [ksLoop]
+  | cons i is ih =>
+    intro st
+    simp only [ksLoop]
+    cases h : ksStep cr start st i with
+    | ok st' => simpa [Outcome.bind] using ih st'
+    | err e' => exact absurd h (ksStep_ne_err cr start st i e')
+    | panic => simp [Outcome.bind]
+
+theorem encrypt_eq_opt (cr : Crypto) (phy : Bytes) (start stop : Nat) (fcnt : UInt32) (hstop : stop < 2 ^ 64) :
+    Gen.CodecFn.encrypt_frm_data_payload (ints phy) (start : Int) (stop : Int) (fcnt.toNat : Int) (genCrypto cr)
+      = optOf ((encryptFrmDataPayload cr phy start stop fcnt).map ints) := by
+  have hg := gen_helper_eq phy 0x01 fcnt Block.zero
+  have ho : Gen.CodecFn.generate_helper_block (ints phy) 1 (fcnt.toNat : Int) (ints Block.zero.toList)
+      = optOf ((generateHelperBlock phy 0x01 fcnt Block.zero).map (fun b => ints b.toList)) := opt_of_eq hg
+  simp only [Gen.CodecFn.encrypt_frm_data_payload, encryptFrmDataPayload, zero_block_ints, usizeSub]
+  rw [ck_usize_sub _ _ hstop]
+  by_cases hs : start ≤ stop
+  · simp only [hs, if_true, Option.bind_eq_bind, Option.bind_some, bind_ok, slice_full_ints, ho]
+    cases hm : generateHelperBlock phy 1 fcnt Block.zero with
+    | panic => simp [optOf, Outcome.map]
+    | err e => simp [optOf, Outcome.map]
+    | ok b =>
+      have hb : b.toList.length = 16 := Vector.length_toList ..
+      simp only [optOf, Outcome.map, Option.bind_some, copy_full_ints, hb, Vector.length_toList, if_true, bind_ok]
+      erw [forRangeM_eq cr start _ _ { a := b, s := Block.zero, ctr := 1, buf := phy } _ rfl]
+      · cases hl : ksLoop cr start (List.range (stop - start)) { a := b, s := Block.zero, ctr := 1, buf := phy } with
+        | ok st' => simp [optOf, Outcome.map, encSt]
+        | err e => simp [optOf, Outcome.map]
+        | panic => simp [optOf, Outcome.map]
+      · intro i hi st
+        have hlt : start + i < 2 ^ 64 := by omega
+        rw [and15, ck_usize_add start i hlt]
+        simp only [encSt, ksStep]
+        have hjlt : i &&& 15 < 16 := Nat.lt_of_le_of_lt Nat.and_le_right (by omega)
+        generalize i &&& 15 = j at *
+        have hx : ∀ v : Block, v[j]? = some v[j] := fun v => by simp [hjlt]
+        cases hb : st.buf[start + i]? with
+        | none =>
+          by_cases hj : j = 0
+          · by_cases hc : st.ctr = 255
+            · simp [hj, hc, setIdx_block15, ck_u8_succ, optOf, Outcome.map, Outcome.bind]
+            · simp [hj, hc, hb, setIdx_block15, ck_u8_succ, optOf, Outcome.map, Outcome.bind, genCrypto, Crypto.encryptBlock,
+                block_ofList_toList, idx_ints, idx_add]
+          · simp [hj, hb, optOf, Outcome.map, Outcome.bind, idx_ints, idx_add]
+        | some b0 =>
+          have hlen : start + i < st.buf.length := (List.getElem?_eq_some_iff.mp hb).1
+          by_cases hj : j = 0
+          · by_cases hc : st.ctr = 255
+            · simp [hj, hc, setIdx_block15, ck_u8_succ, optOf, Outcome.map, Outcome.bind]
+            · subst hj
+              simp [hc, hb, hx, hlen, setIdx_block15, ck_u8_succ, optOf, Outcome.map, Outcome.bind, genCrypto, Crypto.encryptBlock,
+                block_ofList_toList, idx_ints, setIdx_ints, idx_add, setIdx_add, idx_block, idx_block0, xor_toI, encSt]
+          · simp [hj, hb, hx, hlen, optOf, Outcome.map, Outcome.bind, idx_ints, setIdx_ints, idx_add, setIdx_add, idx_block, idx_block0, xor_toI, encSt]
+  · simp only [hs, if_false]; rfl
+
+theorem encrypt_ne_err (cr : Crypto) (phy : Bytes) (start stop : Nat) (fcnt : UInt32) (e : Err) :
+    encryptFrmDataPayload cr phy start stop fcnt ≠ .err e := by
+  have hg := fun e0 => not_err_of_eq (e := e0) (gen_helper_eq phy 0x01 fcnt Block.zero)
+  unfold encryptFrmDataPayload usizeSub
+  by_cases hs : start ≤ stop
+  · simp only [hs, if_true, bind_ok]
+    cases hm : generateHelperBlock phy 1 fcnt Block.zero with
+    | panic => simp
+    | err e' => exact absurd (by rw [hm]; rfl) (hg e')
+    | ok b =>
+      simp only [bind_ok]
+      cases hl : ksLoop cr start (List.range (stop - start)) { a := b, s := Block.zero, ctr := 1, buf := phy } with
+      | ok st' => simp
+      | err e' => exact absurd hl (ksLoop_ne_err cr start e' _ _)
+      | panic => simp
+  · simp [hs]
+
 end TieA.Codec
 
 /-! ## The named tie-A theorems -/
@@ -256,6 +437,24 @@ theorem tieA_calculate_mic (cr : Crypto) (data : Bytes) :
     (Gen.CodecFn.calculate_mic (ints data) (genCrypto cr))._0 = ints (calculateMic cr data) :=
   calc_mic_eq cr data
 
+/-- **Tie A.** `encrypt_frm_data_payload` regenerated (the in-place keystream loop with its `u8` block counter) = the hand
+model's `encryptFrmDataPayload`, for every buffer, `start`, `end`, counter, cipher and key: the same buffer afterwards, or
+a panic on both sides (range underflow, short header, index out of range, counter overflow after 255 blocks).
+`hstop`: `end` is a `usize`. -/
+theorem tieA_encrypt_frm_data_payload (cr : Crypto) (phy : Bytes) (start stop : Nat) (fcnt : UInt32) (hstop : stop < 2 ^ 64) :
+    Outcome.ofOption (Gen.CodecFn.encrypt_frm_data_payload (ints phy) (start : Int) (stop : Int) (fcnt.toNat : Int) (genCrypto cr))
+      = (encryptFrmDataPayload cr phy start stop fcnt).map ints := by
+  rw [encrypt_eq_opt cr phy start stop fcnt hstop]
+  have hne := encrypt_ne_err cr phy start stop fcnt
+  cases h : encryptFrmDataPayload cr phy start stop fcnt with
+  | ok r => rfl
+  | err e => exact absurd h (hne e)
+  | panic => rfl
+
+/-- non-vacuity: a 20-octet payload (two keystream blocks) after an 9-octet header, identity cipher: both sides answer -/
+example : (encryptFrmDataPayload ⟨⟨fun _ b => b, fun _ b => b, fun _ _ => Block.zero⟩, Block.zero⟩
+    (List.replicate 29 0x40) 9 29 7).map List.length = .ok 29 := by decide
+
 /-- non-vacuity: on a concrete downlink header both sides of `tieA_generate_helper_block` are a block (not a panic) -/
 example : (generateHelperBlock [0x60, 1, 2, 3, 4, 0, 7, 0] 0x49 0x01020304 Block.zero).map (fun b => ints b.toList)
     = .ok [73, 0, 0, 0, 0, 1, 1, 2, 3, 4, 4, 3, 2, 1, 0, 0] := by decide
@@ -275,4 +474,9 @@ theorem tieA_calculate_data_mic (cr : Crypto) (data : Bytes) (fcnt : UInt32) :
 theorem tieA_calculate_mic (cr : Crypto) (data : Bytes) :
     (Gen.CodecFn.calculate_mic (ints data) (genCrypto cr))._0 = ints (calculateMic cr data) :=
   C01.tieA_calculate_mic cr data
+/-- `decrypt_in_place` of the parser runs the same `encrypt_frm_data_payload` -/
+theorem tieA_encrypt_frm_data_payload (cr : Crypto) (phy : Bytes) (start stop : Nat) (fcnt : UInt32) (hstop : stop < 2 ^ 64) :
+    Outcome.ofOption (Gen.CodecFn.encrypt_frm_data_payload (ints phy) (start : Int) (stop : Int) (fcnt.toNat : Int) (genCrypto cr))
+      = (encryptFrmDataPayload cr phy start stop fcnt).map ints :=
+  C01.tieA_encrypt_frm_data_payload cr phy start stop fcnt hstop
 end C02
